@@ -111,6 +111,18 @@ def program(entry, wrapper, k, bound):
     return src, exp, per
 
 
+FANOUT_BUDGET = 20_000_000
+# R stands for the recursive call. (sort_by is not in the list: it is documented to leave the order alone when its key function
+# fails, so a failing descent is not propagated by design and a runaway through a sort_by key is outside the property.)
+FANOUT = {
+    "sum": "R + R", "sum-of-three": "R + R + R", "product-nested": "(R * 2) - (1 + R)", "comparison": "R < R", "dot-comparison": "R .== R", "power": "R ^ R",
+    "and": "(R == 1) and (R == 1)", "or": "(R == 1) or (R == 1)", "coalesce": "R ?? R", "list-literal": "[R, R]", "record-literal": "{p: R, q: R}", "call-arguments": "max(R, R)",
+    "condition-and-branch": "if R == 0 then R else R", "string-concat": "to_string(R) + to_string(R)", "index": "[R][R]", "do-block-locals": "do {\n p = R\n q = R\n return p + q\n}",
+    "via-two-elements": "[n, n] via (m => R)", "map-two-elements": "map([n, n], m => R)", "reduce-two-elements": "reduce([n, n], (acc, m) => acc + R, 0)",
+    "where-two-elements": "[n, n] where (m => R == 0)", "spread": "[...[R], ...[R]]", "lambda-arguments": "((p, q) => p + q)(R, R)", "broadcast": "[R, 1] + [R, 2]",
+    "every": "every([n, n], m => R == 0)", "nested-fan": "(R + R) + (R + R)",
+}
+
 DIRECT = ["self", "mutual2", "mutual3", "via-callback", "into", "where-callback", "do-block-body", "curried",
           # cycles on which no function has a name (functions are named by a direct `name = lambda` binding only)
           "anonymous-self-application", "anonymous-record-method", "anonymous-list-element", "anonymous-callback-cycle", "forward-helper-in-do-blocks"]
@@ -220,6 +232,55 @@ def offline(ctx, res):
         if seen[sig] <= 3:
             res.viols.append({"t": "viol", "prop": "C18", "sig": sig, "what": what, "case": desc})
     res.samples.extend(samples)
+    # ---- fan-out: bodies that make SEVERAL recursive calls per level. A runaway of that kind ends as soon as the first
+    # descent reaches the limit only if the failure stops the evaluation of the siblings; if they are still explored, the
+    # number of calls doubles per level and the program never ends. Decided on steps, not on time: the hooks-on CLI counts
+    # evaluator entries (H1) and gives up (exit 97, H7) after FANOUT_BUDGET of them; a linear descent needs a few tens of
+    # thousands.
+    fan = {"steps_budget": FANOUT_BUDGET, "programs": 0, "ended_with_depth_error": 0, "max_entries_hint": None}
+    if os.path.exists(ctx["cli_hooks"]):
+        fan_cases = []
+        for name, body in FANOUT.items():
+            for entry in ("self", "mutual2"):
+                fan_cases.append((name, entry, body))
+
+        def fan_one(item):
+            idx, (name, entry, body) = item
+            if entry == "self":
+                src = f"f = n => ({body.replace('R', 'f(n + 1)')})\noutput r = f(0)"
+            else:
+                src = f"a = n => ({body.replace('R', 'b(n + 1)')})\nb = n => ({body.replace('R', 'a(n + 1)')})\noutput r = a(0)"
+            path = os.path.join(tmpdir, f"fan{idx}.blots")
+            with open(path, "w") as f:
+                f.write(src)
+            rr = common.run_cli([path], timeout=300, binary=ctx["cli_hooks"], env_extra={"BLOTS_VERIF_EVAL_BUDGET": str(FANOUT_BUDGET)}, stack_bytes=1 << 30)
+            text = (rr["out"] + rr["err"]).decode("utf-8", "replace")
+            desc = {"fan_out": name, "entry": entry, "source": src, "exit": rr["rc"], "stderr": rr["err"][-300:].decode("utf-8", "replace"), "steps_budget": FANOUT_BUDGET}
+            if rr["timeout"]:
+                return ("inconclusive", f"watchdog on fan-out={name} entry={entry}", desc)
+            if rr["rc"] == 97 and "VERIF-EVAL-BUDGET-EXHAUSTED" in text:
+                return ("viol", f"unbounded-recursion-does-not-end fan-out={name}", f"a runaway recursion with several recursive calls per level was still running after {FANOUT_BUDGET} evaluation steps (a single descent to the depth limit takes a few tens of thousands)", desc)
+            if rr["rc"] == 1 and "maximum call depth" in text:
+                return ("ok", desc)
+            if rr["rc"] in CRASH:
+                return ("inconclusive", f"hooks-on build crashed on fan-out={name} ({CRASH[rr['rc']]}); crashes are judged on the hooks-off build", desc)
+            return ("viol", f"unbounded-recursion-no-depth-error fan-out={name}", "runaway recursion did not end with a 'maximum call depth exceeded' evaluation error", desc)
+
+        for r in common.pmap(fan_one, list(enumerate(fan_cases))):
+            evals += 1
+            fan["programs"] += 1
+            if r[0] == "inconclusive":
+                res.inconclusive_cases.append(r[1])
+                continue
+            nt += 1
+            if r[0] == "ok":
+                fan["ended_with_depth_error"] += 1
+                continue
+            _, sig, what, desc = r
+            res.viol_by_sig[sig] = res.viol_by_sig.get(sig, 0) + 1
+            seen[sig] = seen.get(sig, 0) + 1
+            if seen[sig] <= 3:
+                res.viols.append({"t": "viol", "prop": "C18", "sig": sig, "what": what, "case": desc})
     # ---- measurements (evidence only): stack bytes per call-depth unit in the hooks-on build
     measure = {}
     if os.path.exists(ctx["cli_hooks"]):
@@ -239,4 +300,4 @@ def offline(ctx, res):
                 pass
     return {"evaluations": evals, "nontrivial": nt, "distinct_nontrivial": nt,
             "coverage": {"entry_shapes": DIRECT + CALLBACK, "wrappers": list(WRAPPERS), "nesting_k": ks, "stack_measurements_hooks_on(evidence only)": measure,
-                         "exhaustive": tier == "thorough"}}
+                         "exhaustive": tier == "thorough", "fan_out": fan, "fan_out_shapes": list(FANOUT)}}
